@@ -424,5 +424,26 @@ theorem pcg32Seed_ok (len : Nat) (state : U64) :
     rfl
   · rw [if_neg h, if_neg h]; rfl
 
+theorem length_readU32s (bs : List U8) (n : Nat) : (Rngs.readU32s bs n).length = n := by
+  simp [Rngs.readU32s]
+
+theorem length_pcg32Chunks : ∀ (k : Nat) (st : U64), (Rngs.pcg32Chunks k st).1.length = 4 * k := by
+  intro k
+  induction k with
+  | zero => intro st; rfl
+  | succ k ih =>
+    intro st
+    simp only [Rngs.pcg32Chunks, List.length_append, length_pcg32, ih]
+    omega
+
+theorem length_pcg32Seed (len : Nat) (st : U64) : (Rngs.pcg32Seed len st).length = len := by
+  unfold Rngs.pcg32Seed
+  simp only []
+  by_cases h : len % 4 ≠ 0
+  · rw [if_pos h, List.length_append, length_pcg32Chunks, List.length_take, length_pcg32]
+    omega
+  · rw [if_neg h, length_pcg32Chunks]
+    omega
+
 end Checked
 end Rngs
